@@ -285,6 +285,8 @@ def model_expr(c, mode):
 
 
 def oracle_expr(c, mode, obs):
+    if isinstance(obs, int) or obs[0] != 'list':
+        return 'false'      # Crash / Hang / unparsable: the history did not even complete
     return 'holds_run %s %s %s %s' % (_cfg(c), z(c['cfg'][3]), _ops(c), to_coq(obs))
 
 
